@@ -333,4 +333,13 @@ def rule_adapter_cancellation(ctx):
     rule_delegations(ctx, 'C01.h')
 
 
-RULES = [('C10.a', rule_a), ('C10.b', rule_b), ('C10.c', rule_c), ('C05.a', rule_order), ('C03.c', rule_d), ('C10.d', rule_e), ('C10.a', rule_no_subscriber), ('C06.e', rule_small_publishers), ('C01.h', rule_adapter_cancellation)]
+
+def rule_queue_only_drained_by_the_sender(ctx):
+    """(shared C05.b)  Nothing but the sender takes a frame source out of the send queue: a fragmented frame stays queued
+    until its last fragment has gone out, and removing it in between leaves the peer with a partial reassembly entry
+    that nothing will ever complete (rules/c05.py)."""
+    from .c05 import rule_b as c05b
+    c05b(ctx)
+
+
+RULES = [('C10.a', rule_a), ('C10.b', rule_b), ('C10.c', rule_c), ('C05.a', rule_order), ('C03.c', rule_d), ('C10.d', rule_e), ('C10.a', rule_no_subscriber), ('C06.e', rule_small_publishers), ('C01.h', rule_adapter_cancellation), ('C05.b', rule_queue_only_drained_by_the_sender)]
